@@ -154,7 +154,7 @@ Definition dec_start_tc (v : json) : res (option text) :=
   | JStr s => if text_eqb (py_upper s) (T "TCP") then Ok (Some (T "TCP"))
               else if df_match s || ndf_match s then Ok (Some s)
               else Raise EValue
-  | _ => Raise EAttribute                               (* no attribute 'upper' *)
+  | _ => Raise EValue                                   (* not isinstance(value, str) *)
   end.
 
 (* stl/config.py _decode_font_stack = tuple(parse_font_families(value)); parse_font_families raises ValueError
@@ -185,7 +185,7 @@ Definition dec_font_stack (v : json) : res (option text) :=
   match v with
   | JNull => Ok None
   | JStr s => if font_any s then Ok (Some s) else Raise EValue
-  | _ => Raise EType                                    (* expected string or bytes-like object *)
+  | _ => Raise EValue                                   (* not isinstance(value, str) *)
   end.
 
 (* stl/config.py _decode_max_row_count: "MNR" in any case, or an int that is not a bool *)
